@@ -471,16 +471,18 @@ def prove_plain_schema(U, prefix, tables):
             textcol = [c for c, d in EXPECTED_SCHEMA[t][0] if d == "text"][0]
             vals = lambda v: [v if c == textcol else (None if c not in EXPECTED_SCHEMA[t][1] else ("k" if dict(EXPECTED_SCHEMA[t][0])[c] == "text" else 1)) for c in cols]
             obs = []
-            for v in ("Abc1", "ABC1", "abc1 "):
+            for v in ("Abc1", "ABC1", "abc1 ", "007", "1e3", "+5"):
                 try:
                     conn.execute("INSERT INTO %s VALUES (%s)" % (t, ",".join("?" * len(cols))), vals(v))
                     obs.append("stored %r" % v)
                 except sqlite3.Error as e:
                     obs.append("%r refused: %s" % (v, e))
             n = conn.execute("SELECT count() FROM %s WHERE %s = ?" % (t, textcol), ("abc1",)).fetchone()[0]
-            exp = ["stored 'Abc1'", "stored 'ABC1'", "stored 'abc1 '"]
-            return {"inputs": {"table": t, "column": textcol, "values": ["Abc1", "ABC1", "abc1 "], "then": "count WHERE %s = 'abc1'" % textcol}, "expected": [exp, 0],
-                    "observed": [obs, n], "violates": obs != exp or n != 0}
+            exp = ["stored 'Abc1'", "stored 'ABC1'", "stored 'abc1 '", "stored '007'", "stored '1e3'", "stored '+5'"]
+            back = sorted(repr(r[0]) for r in conn.execute("SELECT %s FROM %s" % (textcol, t)))
+            expback = sorted(repr(v) for v in ("Abc1", "ABC1", "abc1 ", "007", "1e3", "+5"))
+            return {"inputs": {"table": t, "column": textcol, "values": ["Abc1", "ABC1", "abc1 ", "007", "1e3", "+5"], "then": "count WHERE %s = 'abc1'; read the column back" % textcol},
+                    "expected": [exp, 0, expback], "observed": [obs, n, back], "violates": obs != exp or n != 0 or back != expback}
         U.prove("%s.schema.plain[%s]" % (prefix, t), "table %s: columns %s of plain text / integer affinity (no COLLATE, NOT NULL, DEFAULT, CHECK, UNIQUE, generated or rowid-alias column), primary key %r - text is compared exactly [read back from sqlite after running the real SCHEMA]" % (t, [n for n, _ in want[0]], want[1]),
                 [], z3.BoolVal(bool(ok)), {}, replay=replay)
 
